@@ -72,11 +72,17 @@
       hypothesis: C06_blocked_request_weak (cont = false, OK, world unchanged, the only ghost
       events are renderings, stored session = old one with DIRTY cleared and code dropped) and
       C06_terminated_stays_blocked (every request after that first one is blocked strictly).
+      LONG-LIVED engine (follow-up): C06_blocked_request_long / C06_blocked_until_cleared_long - an
+      initialised engine whose last output was delivered, TERMINATE set, DIRTY clear, WITH OR WITHOUT an
+      entry function (it ran when the engine was initialised): every request reports stop, empty
+      output, logs nothing, changes nothing but the pending code (dropped) and the input; the first one
+      returns OK, the later ones fail in exec ("no code to execute": a long-lived engine injects
+      MOVE <root> only once) and Flush then reports ErrFlushNoExec.
    FALSE with an entry function (finding K-C20-first / K-C07-first class): C06_blocked_refuted_first
    - the entry function's VM returns at once, runFirst takes the STALE last cache value as exit
    text, clears TERMINATE in memory, and the blocked request outputs that value (and is not saved). *)
 From Vise Require Import Bytes Errors Consts EngConsts Codec CacheModel StateModel NavModel NavSpec RenderModel
-  VmModel EngineModel VmProofs FlagProofs.
+  VmModel EngineModel VmProofs FlagProofs FlagProofs2.
 Local Open Scope N_scope.
 
 (* ---- 1. CATCH ------------------------------------------------------------------------------- *)
@@ -274,6 +280,36 @@ Theorem C06_blocked_refuted_dirty :
     /\ snd (request_persisted 100 rs c (fst (request_persisted 100 rs c p input)) input) = mkResp false SOk [] FOk.
 Proof. exact blocked_refuted_dirty. Qed.
 
+Theorem C06_blocked_request_long : forall fuel rs c e input,
+  e_initd e = true -> delivered_l e ->
+  getf (v_st (e_v e)) FLAG_TERMINATE = true -> getf (v_st (e_v e)) FLAG_DIRTY = false ->
+  accepted_b input = true -> (reset_req c input = false \/ s_path (v_st (e_v e)) = []) ->
+  request_long (S fuel) rs c e input =
+    match s_code (v_st (e_v e)) with
+    | [] => (blocked_engine e input false, mkResp false (SErr EGen None) [] (FErr EFlushNoExec))
+    | _ => (blocked_engine e input true, mkResp false SOk [] FOk)
+    end.
+Proof. exact blocked_request_long. Qed.
+
+Theorem C06_blocked_until_cleared_long : forall fuel rs c inputs e,
+  e_initd e = true -> delivered_l e ->
+  getf (v_st (e_v e)) FLAG_TERMINATE = true -> getf (v_st (e_v e)) FLAG_DIRTY = false ->
+  Forall (fun i => accepted_b i = true /\ (reset_req c i = false \/ s_path (v_st (e_v e)) = [])) inputs ->
+  let '(e', resps) := requests_long (S fuel) rs c e inputs in
+  Forall (fun r => r_cont r = false /\ r_out r = [] /\ (r_exec r = SOk \/ r_exec r = SErr EGen None)) resps
+  /\ v_log (e_v e') = v_log (e_v e) /\ v_w (e_v e') = v_w (e_v e)
+  /\ s_path (v_st (e_v e')) = s_path (v_st (e_v e)) /\ v_ca (e_v e') = v_ca (e_v e)
+  /\ getf (v_st (e_v e')) FLAG_TERMINATE = true.
+Proof. exact blocked_until_cleared_long. Qed.
+
+Example C06_blocked_long_nonvacuous :
+  let e := fst (requests_long 100 rs_term cfg_term (new_engine cfg_term None [] []) [[]; s2b "1"]) in
+  e_initd e = true /\ e_execd e = true /\ e_exiting e = false /\ e_exit e = []
+  /\ getf (v_st (e_v e)) FLAG_TERMINATE = true /\ getf (v_st (e_v e)) FLAG_DIRTY = false
+  /\ map (fun r => (r_cont r, r_out r)) (snd (requests_long 100 rs_term cfg_term e [s2b "0"; s2b "1"; []]))
+     = [(false, []); (false, []); (false, [])].
+Proof. vm_compute. repeat split; reflexivity. Qed.
+
 Theorem C06_accepted_is_not_refused : forall i, accepted_b i = negb (EngineMon.refused_b i).
 Proof. exact accepted_b_not_refused. Qed.
 
@@ -371,6 +407,9 @@ Print Assumptions C06_blocked_until_cleared.
 Print Assumptions C06_blocked_request_weak.
 Print Assumptions C06_terminated_stays_blocked.
 Print Assumptions C06_blocked_refuted_dirty.
+Print Assumptions C06_blocked_request_long.
+Print Assumptions C06_blocked_until_cleared_long.
+Print Assumptions C06_blocked_long_nonvacuous.
 Print Assumptions C06_accepted_is_not_refused.
 Print Assumptions C06_blocked_refuted_first.
 Print Assumptions C06_blocked_nonvacuous.
